@@ -137,12 +137,14 @@ def splitLast (c : Nat) : List Nat → Option (List Nat × List Nat)
 def slash : Nat := 47
 
 /-- `dir_prefix_ext` on simple Unix paths (segments separated by single slashes, no `.`/`..` segments inside, no
-    trailing slash): directory = `Path::parent`, prefix = `file_stem`, extension = `extension` or `log`.
+    trailing slash): directory = `Path::parent` (`.` when that is empty), prefix = `file_stem`, extension = `extension` or `log`.
     `none` = the error "paths must include a file name". -/
 def dirPrefixExt (path : List Nat) : Option (List Nat × List Nat × List Nat) :=
   let (dir, name) :=
     match splitLast slash path with
-    | none => ([], path)
+    -- no directory part (`app.log`): the current directory (an empty directory string can be neither listed nor
+    -- opened to sync; defect D18, repaired)
+    | none => ([dot], path)
     | some (d, n) => (if d = [] then [slash] else d, n)
   if name = [] ∨ name = [dot] ∨ name = [dot, dot] then none
   else
